@@ -12,7 +12,7 @@ from nrel.hive.state.vehicle_state.vehicle_state import (
     VehicleState,
     VehicleStateInstanceId,
 )
-from nrel.hive.state.vehicle_state.vehicle_state_ops import charge
+from nrel.hive.state.vehicle_state.vehicle_state_ops import charge, jumps_the_queue
 from nrel.hive.state.vehicle_state.vehicle_state_type import VehicleStateType
 from nrel.hive.util.exception import SimulationStateError
 from nrel.hive.util.typealiases import StationId, VehicleId, ChargerId
@@ -112,7 +112,7 @@ class ChargingStation(VehicleState):
         elif not mechatronics.valid_charger(charger):
             msg = f"vehicle {vehicle.id} of type {vehicle.mechatronics_id} can't use charger {charger.id}"
             return SimulationStateError(msg), None
-        elif self._jumps_the_queue(sim, vehicle):
+        elif jumps_the_queue(sim, vehicle, self.station_id, self.charger_id):
             # first come, first served: a vehicle waiting in this station's queue is not plugged in
             # (by whatever instruction) past vehicles that joined that queue before it
             return None, None
@@ -134,29 +134,6 @@ class ChargingStation(VehicleState):
                     return None, None
                 else:
                     return VehicleState.apply_new_vehicle_state(updated_sim, self.vehicle_id, self)
-
-    def _jumps_the_queue(self, sim: "SimulationState", vehicle: Vehicle) -> bool:
-        """
-        true if this vehicle is waiting in the queue for this station and charger type and some other
-        vehicle joined that queue earlier (ties broken by vehicle id, as the queue is served)
-        """
-
-        def _queueing_here(v: Vehicle) -> bool:
-            state = v.vehicle_state
-            return (
-                state.vehicle_state_type == VehicleStateType.CHARGE_QUEUEING
-                and getattr(state, "station_id", None) == self.station_id
-                and getattr(state, "charger_id", None) == self.charger_id
-            )
-
-        if not _queueing_here(vehicle):
-            return False
-        my_turn = (getattr(vehicle.vehicle_state, "enqueue_time"), vehicle.id)
-        ahead = sim.get_vehicles(
-            filter_function=lambda v: _queueing_here(v)
-            and (getattr(v.vehicle_state, "enqueue_time"), v.id) < my_turn
-        )
-        return len(ahead) > 0
 
     def update(
         self, sim: "SimulationState", env: Environment
